@@ -353,6 +353,13 @@ pub fn run_bytes(case: &Case, out: &mut Outcome) -> Option<Failure> {
                 w.start_op(0, OpSpec::Publish(tagged_publish(2, 2)));
                 w.start_op(0, OpSpec::Ping);
                 settle(&mut w, &plan, false);
+                // and a subscribe given up by its caller while its SUBACK is still to come
+                // (packet identifier 6, subscription identifier 4)
+                if let Some(c) = w.start_op(0, OpSpec::Subscribe(tagged_subscribe(22, 1))) {
+                    settle(&mut w, &plan, false);
+                    w.drop_op(c);
+                    settle(&mut w, &plan, false);
+                }
             } else {
                 prologue_ok = false;
             }
@@ -670,6 +677,33 @@ impl Property for C04 {
                 &rc::Form::canonical(),
             );
             v.push(Case { phase: Phase::Run, label: "publish-naming-several-subscriptions".into(), bytes: b, chunk: 0, fault: Fault::None });
+        }
+        // every ordered pair and triple of well-formed packets that address what the prologue left
+        // outstanding (subscriptions 1 alive, 2 dead, 3 alive, 4 abandoned before its SUBACK = packet
+        // identifier 6; publishes 4 and 5; a ping), in one read
+        let palette: Vec<rc::Packet> = {
+            let mut p: Vec<rc::Packet> = [1u32, 2, 3, 4, 9]
+                .iter()
+                .map(|sid| rc::Packet::Publish(rc::Publish { qos: 0, topic: "addr".into(), payload: vec![*sid as u8], subscription_ids: vec![*sid], ..Default::default() }))
+                .collect();
+            p.push(rc::Packet::Publish(rc::Publish { qos: 1, pid: Some(77), topic: "addr".into(), payload: vec![7], subscription_ids: vec![4, 2], ..Default::default() }));
+            p.push(rc::Packet::Suback(rc::AckList { pid: 6, reasons: vec![0], ..Default::default() }));
+            p.push(rc::Packet::Suback(rc::AckList { pid: 6, reasons: vec![0x80], ..Default::default() }));
+            p.push(rc::Packet::Suback(rc::AckList { pid: 1, reasons: vec![0], ..Default::default() }));
+            p.push(rc::Packet::Puback(rc::Ack { pid: 4, ..Default::default() }));
+            p.push(rc::Packet::Pubrec(rc::Ack { pid: 5, ..Default::default() }));
+            p.push(rc::Packet::Pubcomp(rc::Ack { pid: 5, ..Default::default() }));
+            p.push(rc::Packet::Pingresp);
+            p
+        };
+        let enc: Vec<Vec<u8>> = palette.iter().map(|p| rc::encode(p, &rc::Form::canonical())).collect();
+        for a in &enc {
+            for b in &enc {
+                v.push(Case { phase: Phase::Run, label: "pair-addressing-outstanding-state".into(), bytes: [a.clone(), b.clone()].concat(), chunk: 0, fault: Fault::None });
+                for c in &enc {
+                    v.push(Case { phase: Phase::Run, label: "triple-addressing-outstanding-state".into(), bytes: [a.clone(), b.clone(), c.clone()].concat(), chunk: if (a.len() + c.len()) % 2 == 0 { 0 } else { 3 }, fault: Fault::None });
+                }
+            }
         }
         // every property of every rich packet moved to the END of the property block in turn, and
         // the two-byte value at each of the last 14 offsets raised by 1 and by 2: a string / binary
